@@ -91,25 +91,24 @@ static Run tokenizeReal(const std::string &src, bool fileMode, bool oracles) {
   Run r; r.errors = 0;
   char *buf = NULL;
   const char *base;
-  tokenizer_t *tk;
+  // one tokenizer object for all sources, re-targeted with set() — as parser_t uses its tokenizer
+  static tokenizer_t *tk = new tokenizer_t();
   file_t *file = NULL;
   if (fileMode) {
     file = new file_t(std::string("(h_lex)"), src);   // std::string: a literal would select file_t(bool, name)
-    tk = new tokenizer_t();
     tk->set(file);                       // as parser_t::setSource(filename, true) does
     base = file->content.c_str();
   } else {
     buf = (char*) malloc(src.size() + 1);
     memcpy(buf, src.data(), src.size());
     buf[src.size()] = '\0';
-    tk = new tokenizer_t();
     tk->set((const char*) buf);          // as parser_t::setSource(source, false) does
     base = buf;
   }
   // the C string the tokenizer sees ends at the first NUL
   const size_t n = strlen(base);
   const char *prevEnd = base;
-  alarm(5);
+  alarm(20);
   while (!tk->isEmpty()) {
     token_t *t = NULL;
     tk->setNext(t);
@@ -142,7 +141,7 @@ static Run tokenizeReal(const std::string &src, bool fileMode, bool oracles) {
   }
   alarm(0);
   r.errors = tk->errors;
-  delete tk;
+  tk->clear();                           // drops the references to the file / buffer
   if (buf) free(buf);
   return r;
 }
